@@ -48,6 +48,10 @@ def execute(sc):
         probes['integer_nanosecond_stamps_beyond_2_53'] = 1
     if st['inc_cols']:
         probes['increments_columns_reordered_or_extra'] = 1
+    if st.get('foreign_name'):
+        probes['set_pva_series_named_otherwise_than_current_time'] = 1
+    if sc['perturb'].get('zero_rows'):
+        probes['increment_rows_exactly_zero'] = 1
     return dict(violations=v02, digest=dg, sig=st['sig'],
                 nontrivial=(st['ops'] > 1 and (st['grow'] or st['set_pva'] or st['predicts']
                                                or st['empty_chunks'])),
@@ -79,7 +83,9 @@ PROBES_WANTED = ['buffer_growth', 'growth_during_predict', 'chunk_straddles_capa
                  'blind_monitor_mode', 'chunk_of_100_or_more_rows',
                  'first_increment_stamp_equals_start_time', 'increment_with_dt_zero',
                  'predict_over_zero_fraction', 'integer_nanosecond_stamps_beyond_2_53',
-                 'increments_columns_reordered_or_extra']
+                 'increments_columns_reordered_or_extra',
+                 'set_pva_series_named_otherwise_than_current_time',
+                 'increment_rows_exactly_zero']
 
 
 def describe():
